@@ -11,7 +11,8 @@ Streams
              a custom provider class) x sequences of LongPoll.poll and PushService._push_task on a fake channel that
              records request + metadata keyword, and (1 in 5) through the real GRPCService channel to an in-process
              loopback gRPC server that records what really arrives;
-  labelled known-finding streams: lone surrogate in a text, attribute int beyond int64.  (None inside a sequence
+  labelled known-finding streams: lone surrogate in a text, attribute int beyond int64, auth provider whose token
+             rotates between operations (constant providers stay in the main judged stream).  (None inside a sequence
              attribute is judged normally: it must arrive as an empty value at its position.)
 """
 import base64
@@ -592,6 +593,8 @@ class Script:
     """what ScriptedProvider does on each call (one script per run_auth)"""
     calls = 0
     raised = 0
+    epoch = 0                # advanced by the harness between operations: a rotating provider's token of the moment
+    rotate = False
     returns = []             # what provide() actually returned, call by call (TokenProvider and ScriptedProvider)
     fail_first = 0
     gate_first = False
@@ -600,10 +603,19 @@ class Script:
     release = threading.Event()
 
     @classmethod
+    def current(cls):
+        """what the provider supplies NOW: its configured metadata; when it rotates, the token of the current epoch"""
+        if cls.rotate:
+            return [('authorization', 'Bearer token-%d' % cls.epoch)] + [kv for kv in cls.md if kv[0] != 'authorization']
+        return list(cls.md)
+
+    @classmethod
     def reset(cls, cfg, gate):
         cls.calls = 0
         cls.raised = 0
         cls.returns = []
+        cls.epoch = 0
+        cls.rotate = bool(cfg.get('rotate'))
         cls.fail_first = int(cfg.get('fail_first') or 0)
         cls.gate_first = gate
         cls.md = [tuple(kv) for kv in (cfg.get('custom_md') or [])]
@@ -628,8 +640,9 @@ class ScriptedProvider:
             Script.entered.set()
             if not Script.release.wait(30):
                 raise core.Infra('provider gate was never released')
-        Script.returns.append([list(kv) for kv in Script.md])
-        return list(Script.md)
+        md = Script.current()
+        Script.returns.append([list(kv) for kv in md])
+        return md
 
 
 class FakeChannel:
@@ -810,6 +823,8 @@ def _run_auth(case, cfg, config, custom):
                 'provider_calls': Script.calls, 'provider_returns': list(Script.returns)}
     for i, op in enumerate(case['ops']):
         n = len(rec)
+        if case['cfg'].get('rotate'):
+            Script.epoch = case['epochs'][i]
         raised_before = Script.raised
         try:
             do(i, op)
@@ -821,6 +836,8 @@ def _run_auth(case, cfg, config, custom):
             out.append({'kind': 'dropped', 'op': op})
             continue
         out.append(entry(rec[-1], op))
+        if case['cfg'].get('rotate'):
+            out[-1]['supplies_now'] = [list(kv) for kv in Script.current()]
     if case.get('transport') == 'grpc':
         grpc.channel.close()
     return {'wire': out, 'stored_resource': [[T(k), pyval(v)] for k, v in config.resource.attributes.items()],
@@ -981,7 +998,15 @@ def inst_big_int(case):
     return any(big(v) or (seq_of(v) is not None and any(big(x) for x in seq_of(v))) for v in attr_values(case))
 
 
+def inst_rotating(case):
+    """the configured provider really returns different metadata on successive calls during this case"""
+    return (case['kind'] == 'auth' and bool(case['cfg'].get('rotate'))
+            and len(set(case.get('epochs', [])[:len(case['ops'])])) > 1)
+
+
 def known_finding(case, obs):
+    if inst_rotating(case):
+        return 'C08/auth-metadata-cached-forever'
     if inst_surrogate(case):
         return 'C08/lone-surrogate-dropped'
     if inst_big_int(case):
@@ -1094,6 +1119,8 @@ def oracle(case, obs):
                              f'anything yet')
                     continue
                 exp = w['supplied']
+                if case['cfg'].get('rotate'):
+                    exp = w['supplies_now']          # the token of the moment, not the one asked for earlier
             # (through HTTP/2 the order between DIFFERENT keys is not part of what gRPC guarantees: multiset there)
             if case.get('transport') == 'grpc' and sorted(w['metadata']) != sorted(exp):
                 v.append(f'operation {i} ({w["op"]}): the server received metadata {w["metadata"]}, the provider '
@@ -1129,6 +1156,8 @@ def model_request(case, obs):
     mc = {'provider': cfg.get('provider'), 'username': cfg.get('username'), 'password': cfg.get('password')}
     if cfg.get('provider') and not cfg['provider'].endswith('BasicAuthProvider'):
         mc['custom'] = cfg.get('custom_md') or []
+    if cfg.get('rotate'):
+        return None                  # the constant-provider model does not apply (theorem c08_auth_rotation_witness)
     if case.get('concurrent'):
         # A looks (miss, asks), B looks (miss, asks), B stores + sends, A stores + sends
         return {'op': 'auth_conc', 'cfg': mc, 'threads': 2, 'sched': [0, 1, 1, 0]}
@@ -1418,9 +1447,26 @@ def gen_uploads(rng):
     return {'kind': 'uploads', 'stream': 'main', 'snaps': snaps}
 
 
+def gen_rotating(rng):
+    """a provider whose token rotates / expires between operations (labelled: known finding)"""
+    n = rng.randint(2, 6)
+    epochs, e = [], 0
+    for _ in range(n):
+        epochs.append(e)
+        if rng.random() < 0.5:
+            e += 1
+    if len(set(epochs)) == 1:
+        epochs[-1] = epochs[-1] + 1
+    return {'kind': 'auth', 'stream': 'rotating',
+            'cfg': {'provider': 'props.c08.ScriptedProvider', 'rotate': True,
+                    'custom_md': rng.choice([[], [['x-tenant', 'acme']]])},
+            'ops': [rng.choice(['poll', 'push']) for _ in range(n)], 'epochs': epochs, 'resource': [],
+            'snaps': [{'tp_id': 'tp0', 'ts': 1_700_000_000_000_000_000, 'attrs': [], 'resource': []}]}
+
+
 def clean(case):
     """main stream cases must not be instances of a known finding"""
-    return not (inst_surrogate(case) or inst_big_int(case))
+    return not (inst_surrogate(case) or inst_big_int(case) or inst_rotating(case))
 
 
 def gen(rng, tier):
@@ -1435,7 +1481,10 @@ def gen(rng, tier):
                 yield c
             continue
         if k % 14 == 0:
-            stream = ['surrogate', 'big-int'][(k // 14) % 2]
+            stream = ['surrogate', 'big-int', 'rotating'][(k // 14) % 3]
+            if stream == 'rotating':
+                yield gen_rotating(rng)
+                continue
             kind = rng.choice(['snapshot', 'snapshot', 'value', 'auth'])
             yield {'snapshot': gen_snapshot, 'value': gen_value, 'auth': gen_auth}[kind](rng, stream)
             continue
@@ -1514,7 +1563,14 @@ def known_replays():
     sur = {'kind': 'snapshot', 'stream': 'surrogate', 'names': ['v0'], 'nested': False, 'tp_id': 'tp-1',
            'locals': [{'k': 'str', 'v': 'v\ud800'}], 'args': {}, 'watches': [], 'attrs': [], 'resource': []}
     bigc = dict(sur, stream='big-int', locals=[{'k': 'int', 'v': 1}], attrs=[['k', 2 ** 70]])
+    rot = {'kind': 'auth', 'stream': 'rotating', 'cfg': {'provider': 'props.c08.ScriptedProvider', 'rotate': True,
+                                                         'custom_md': []},
+           'ops': ['poll', 'push', 'poll', 'push'], 'epochs': [0, 0, 1, 2], 'resource': [],
+           'snaps': [{'tp_id': 'tp0', 'ts': 1_700_000_000_000_000_000, 'attrs': [], 'resource': []}]}
     return [
+        ('C08/auth-metadata-cached-forever',
+         'a provider whose token rotates is asked once: later polls and snapshot uploads carry the first token '
+         '(GRPCService caches the metadata for the life of the agent)', rot),
         ('C08/lone-surrogate-dropped',
          "a local str 'v\\ud800' (lone surrogate): protobuf refuses the text, convert_snapshot returns None, the "
          "snapshot is silently not sent", sur),
@@ -1610,4 +1666,6 @@ def shrink(case):
 def evidence_extra():
     return {'known_finding_predicates': {
         'C08/lone-surrogate-dropped': 'some text in the case contains a surrogate code point',
-        'C08/attr-int-out-of-range-dropped': 'some attribute int (or sequence element) is outside [-2^63, 2^63)'}}
+        'C08/attr-int-out-of-range-dropped': 'some attribute int (or sequence element) is outside [-2^63, 2^63)',
+        'C08/auth-metadata-cached-forever': 'the configured provider rotates and the epochs of the operations differ '
+                                            '(it really returns different metadata on successive calls)'}}
